@@ -82,7 +82,7 @@ func init() {
 		Prop:  "C07",
 		Level: "model_checking",
 		Rule: "SEQ (differential): every history up to depth d over the general alphabet plus the letter 'snapshot, restore into a fresh collection of capacity c (indexes created first) and " +
-			"CONTINUE on the restored collection' for c in {1, 64, 1024, 20000}; schemas with bitmap indexes only and with a sorted index and a trigger besides; at every node rows, offsets, values of all column kinds (incl. enum, bool, record, key, expire), indexes (bitmap: selection = predicate; sorted: Ascend complete and ordered), key " +
+			"CONTINUE on the restored collection' for c in {1, 64, 1024, 20000}; a unit with one column of every kind and the per-kind value alphabets (zero, negative numbers of every width, NaN, -0, empty strings); schemas with bitmap indexes only and with a sorted index and a trigger besides; at every node rows, offsets, values of all column kinds (incl. enum, bool, record, key, expire), indexes (bitmap: selection = predicate; sorted: Ascend complete and ordered), key " +
 			"lookups and Count equal the model; later inserts must return offsets of no live row; repeated restore letters give second- and third-generation snapshots",
 		Assumptions: []string{"the target collection has the same schema and the same index definitions, created before Restore"},
 		Budget:      budget(170*time.Second, 28*time.Minute),
@@ -95,21 +95,21 @@ func init() {
 		Units: func(tier string) []eng.Unit {
 			caps := []int{1, 64, 1024, 20000}
 			if tier == "quick" {
-				return genUnits([]genSpec{
+				return append(c07KindsUnits(tier), genUnits([]genSpec{
 					{prop: "C07", logger: "", preset: "empty", depth: 4, restore: caps},
 					{prop: "C07", logger: "", preset: "sparse-3", depth: 3, restore: caps[:2], comp: true},
 					{prop: "C07", logger: "", preset: "block-edge", depth: 2, restore: caps[1:3], comp: true},
 					{prop: "C07", keyed: true, logger: "", preset: "two-blocks", depth: 4, restore: caps[1:3], comp: true},
-				})
+				})...)
 			}
-			return genUnits([]genSpec{
+			return append(c07KindsUnits(tier), genUnits([]genSpec{
 				{prop: "C07", logger: "", preset: "empty", depth: 5, restore: caps, rich: true},
 				{prop: "C07", logger: "", preset: "sparse-3", depth: 4, restore: caps[:2], comp: true},
 				{prop: "C07", logger: "", preset: "block-edge", depth: 3, restore: caps[1:3], comp: true},
 				{prop: "C07", keyed: true, logger: "", preset: "two-blocks", depth: 5, restore: caps[1:3], comp: true},
 				{prop: "C07", keyed: true, logger: "", preset: "empty", depth: 5, restore: caps[:2]},
 				{prop: "C07", logger: "", preset: "empty", depth: 4, restore: caps[1:3], comp: true},
-			})
+			})...)
 		},
 	})
 
